@@ -691,6 +691,8 @@ var deniedCalls = map[string]string{
 	"runtime.NumCPU": "machine", "runtime.NumGoroutine": "scheduler", "runtime.GOMAXPROCS": "machine",
 	"reflect.Value.Pointer": "address", "reflect.Value.UnsafeAddr": "address", "reflect.Value.UnsafePointer": "address",
 	"os.Getuid": "user", "os.Getgid": "user", "os/user.Current": "user",
+	"os.Stat": "file-system history (timestamps, existence of earlier output)", "os.Lstat": "file-system history",
+	"os.Chtimes": "file-system history", "io/fs.FileInfo.ModTime": "file timestamps", "os.File.Stat": "file-system history",
 }
 
 func ruleDET3(c *Ctx) {
@@ -876,8 +878,100 @@ func ruleDET4(c *Ctx) {
 	}
 	// (ii) overlay key derives from the parser.gen.go constant, the same constant EmitParser writes
 	checkOverlay(c, rule)
+	// (iii) the package name is never read from a generated file
+	checkPackageNameSource(c, rule)
 	// (iv) file writes
 	checkFileWrites(c, rule)
+	// (v) every stage that reports success has rewritten its file
+	ruleEMIT1(c, rule)
+}
+
+// genFileConsts: the string constants of internal/codegen naming generated files (*.gen.go).
+func genFileConsts(p *Program) []*types.Const {
+	pk := p.Pkg("internal/codegen")
+	var out []*types.Const
+	for _, name := range pk.Types.Scope().Names() {
+		if k, ok := pk.Types.Scope().Lookup(name).(*types.Const); ok && strings.HasSuffix(constStr(k), ".gen.go") {
+			out = append(out, k)
+		}
+	}
+	return out
+}
+
+func checkPackageNameSource(c *Ctx, rule string) {
+	p := c.Prog
+	pk, fd := p.FuncDecl("internal/codegen", "context.PreParseGo")
+	construct := "codegen.context.PreParseGo/package-name-source"
+	if fd == nil {
+		c.unres(rule, construct, "", "function not found")
+		return
+	}
+	info := pk.TypesInfo
+	consts := genFileConsts(p)
+	// the condition selecting the file whose package clause is read
+	excluded := map[*types.Const]bool{}
+	ast.Inspect(fd.Body, func(n ast.Node) bool {
+		be, ok := n.(*ast.BinaryExpr)
+		if !ok || be.Op != token.NEQ {
+			return true
+		}
+		if k, ok := usesObj(info, be.Y).(*types.Const); ok && strings.HasSuffix(exprString(be.X), ".Name()") {
+			excluded[k] = true
+		}
+		return true
+	})
+	var missing []string
+	for _, k := range consts {
+		if !excluded[k] {
+			missing = append(missing, k.Name())
+		}
+	}
+	c.check(len(missing) == 0 && len(consts) >= 3, rule, construct, p.Pos(fd.Pos()),
+		fmt.Sprintf("the file the package name is read from is never one of the %d generated files (a stale one could carry another package name)", len(consts)),
+		fmt.Sprintf("the package name can be read from generated file(s) %v left by an earlier run: output then depends on the directory's history", missing))
+}
+
+// ruleEMIT1: in every function that writes a generated file, each `return true` is reached only
+// after the os.WriteFile call (and not around it).
+func ruleEMIT1(c *Ctx, rule string) {
+	p := c.Prog
+	pk := p.Pkg("internal/codegen")
+	info := pk.TypesInfo
+	n := 0
+	for _, f := range pk.Syntax {
+		if isTestFile(p.Fset, f) {
+			continue
+		}
+		for _, d := range f.Decls {
+			fd, ok := d.(*ast.FuncDecl)
+			if !ok || fd.Body == nil {
+				continue
+			}
+			writes := findCalls(info, fd.Body, false, func(fn *types.Func, _ *ast.CallExpr) bool { return fullName(fn) == "os.WriteFile" })
+			if len(writes) == 0 {
+				continue
+			}
+			n++
+			g := p.CFG(pk, fd)
+			ok2 := true
+			inspectNoLit(fd.Body, func(m ast.Node) bool {
+				rs, isRet := m.(*ast.ReturnStmt)
+				if !isRet || len(rs.Results) != 1 || exprString(rs.Results[0]) == "false" {
+					return true
+				}
+				if !mustPassBefore(g, rs, func(nn ast.Node) bool { return containsNode(nn, writes[0]) }) {
+					ok2 = false
+				}
+				return true
+			})
+			c.check(ok2, rule, funcKey(pk, fd)+"/writes-before-success", p.Pos(writes[0].Pos()),
+				"every path that reports success has rewritten the file (no freshness shortcut: stale output is never kept)",
+				"the stage can report success without rewriting its file: output left by an earlier run (possibly of another grammar) is kept")
+		}
+	}
+	if n < 3 {
+		c.unres(rule, "codegen/emit-stages", "", "only %d functions write generated files", n)
+	}
 }
 
 // stageCalls finds calls to method `name` (of codegen.context) inside fd.
